@@ -175,7 +175,7 @@ inductive Field where
 def Field.names : Field → List String
   | .clsAttributes => ["MetaClass.attributes"]
   | .clsIndices => ["MetaClass.indices", "MetaClass.identifying_attributes"]
-  | .instances => ["MetaClass.storage", "Class.__dict__"]
+  | .instances => ["MetaClass.storage", "MetaClass.deleted", "Class.__dict__"]
   | .linkItems => ["Link.items"]
   | .idGenerator => ["IdGenerator._current"]
   | .assocKeys => ["Association.source_keys", "Association.target_keys"]
@@ -340,6 +340,12 @@ def Mut.attrKind : Mut → String
   | .deleteAttr k _ => k
   | _ => ""
 
+/-- the instance with creation index `id` is still in the storage of its class -/
+def aliveH (o : HMeta) (kind : String) (id : Nat) : Bool :=
+  match findHCls o.classes kind with
+  | some c => c.rows.any (fun p => p.1 = id)
+  | none => false
+
 /-- the mutators that touch only objects the build allocated for this metamodel (`attrsOf` reads a class's
     attribute list, needed by `new`) -/
 def applyOwn (attrsOf : Ref (List (String × Ty)) → List (String × Ty)) (o : HMeta) : Mut → HMeta × Res
@@ -390,6 +396,9 @@ def applyOwn (attrsOf : Ref (List (String × Ty)) → List (String × Ty)) (o : 
     match o.assocs[n]? with
     | none => (o, .metaError)
     | some a =>
+      -- `relate` refuses an instance that has been deleted (it is in its metaclass's `deleted` set: created once,
+      -- no longer in the storage)
+      if !(aliveH o a.stmt.srcKind s && aliveH o a.stmt.tgtKind t) then (o, .relateError) else
       match connectChecked a.links.src a.stmt.srcMany t s with
       | none => (o, .relateError)
       | some src' =>
